@@ -76,7 +76,10 @@ var prevDayEndCnt [3]float64
 var unstableDays, unstableEarlyDays, laterSubstepNitroCalls int
 var bookPre [5]float64
 var prevStage, prevNaos0, prevCropN float64
-var prevAkf, resprouts int
+var prevAkf, resprouts, perCropFixChecked int
+var preHarvestNfix, perCropFixWant float64
+var perCropFixPending bool
+var perCropFixIdx int
 var tableParams = map[uint64][3][21]float64{}
 var tableLevelRepeats int
 
@@ -165,6 +168,7 @@ func traceLine(work, line string, lineNo int, r *rng, waterEvery int) {
 	var day, nday dayAcc
 	prevDayEndZeit = -1
 	tableParams = map[uint64][3][21]float64{}
+	preHarvestNfix, perCropFixPending = 0, false
 	gwfcPrevZeit, gwfcPrevGRW, gwfcChanged = -10, math.NaN(), false
 	irrFile := irrigationFile(work, line)
 	irrByZeit := map[int][2]float64(nil)
@@ -178,6 +182,15 @@ func traceLine(work, line string, lineNo int, r *rng, waterEvery int) {
 	hermes.VerifProbe = func(stage string, zeit, subd int, wdt float64, g *hermes.GlobalVarsMain, w *hermes.WaterSharedVars, n *hermes.NitroSharedVars) {
 		switch stage {
 		case "evatra-pre":
+			if perCropFixPending {
+				perCropFixPending = false
+				if g.NfixP != 0 || perCropFixWant == 0 {
+					perCropFixChecked++
+					if math.Abs(g.NfixP-perCropFixWant) > 1e-9*(1+math.Abs(g.NFIXSUM)) {
+						oracleFail("per-crop-fixation line=%d zeit=%d crop-index=%d reported=%v fixed-since-the-previous-harvest=%v", lineNo, zeit-1, perCropFixIdx, g.NfixP, perCropFixWant)
+					}
+				}
+			}
 			// C06/C15: the groundwater-change block of run.go on the backup route (explicit values or a PTF):
 			// after a change the capacities are set_fc_gw(level, saved values); nothing else moves them
 			if g.PTF != 0 || g.CAPPAR != 0 {
@@ -436,6 +449,14 @@ func traceLine(work, line string, lineNo int, r *rng, waterEvery int) {
 					}
 				}
 				prevStage, prevAkf, prevNaos0, prevCropN = g.INTWICK.Num, g.AKF.Index, g.NAOS[0], g.PESUM
+				// C07 "N fixation is credited to the crop exactly once": the per-crop fixation figure the day loop derives on the
+				// day before a harvest (g.NfixP, written with the pre-harvest / daily outputs) is what was fixed since the
+				// previous such day - no crop is credited with an earlier crop's fixation again
+				// (the figure is written after the end-of-day probe: it is read at the first probe of the next day)
+				if zeit == g.ERNTE[g.AKF.Index]-1 {
+					perCropFixWant, perCropFixPending, perCropFixIdx = g.NFIXSUM-preHarvestNfix, true, g.AKF.Index
+					preHarvestNfix = g.NFIXSUM
+				}
 				// C07: fertiliser applied is a cumulative total: it does not go down on an ordinary day
 				if !day.excluded && g.DSUMM < nday.nDsumm-1e-9*(1+math.Abs(nday.nDsumm)) {
 					oracleFail("applied-fertiliser-decreases line=%d zeit=%d before=%v after=%v autofert=%v", lineNo, zeit, nday.nDsumm, g.DSUMM, g.AUTOFERT)
@@ -497,5 +518,5 @@ func traceLine(work, line string, lineNo int, r *rng, waterEvery int) {
 	}
 	res := runProject(work, splitArgs(line))
 	hermes.VerifProbe = nil
-	emit(jobj{"k": "run", "line": lineNo, "success": res.Success, "err": res.Err, "days": days, "substeps": sub, "file_irrigations_checked": irrSeen, "resprouting_events": resprouts, "table_route_level_repeats": tableLevelRepeats, "later_substep_nitro_calls": laterSubstepNitroCalls, "unstable_days": unstableDays, "unstable_early_days": unstableEarlyDays})
+	emit(jobj{"k": "run", "line": lineNo, "success": res.Success, "err": res.Err, "days": days, "substeps": sub, "file_irrigations_checked": irrSeen, "per_crop_fixation_checked": perCropFixChecked, "resprouting_events": resprouts, "table_route_level_repeats": tableLevelRepeats, "later_substep_nitro_calls": laterSubstepNitroCalls, "unstable_days": unstableDays, "unstable_early_days": unstableEarlyDays})
 }
